@@ -16,6 +16,7 @@ point and y = tools.force(...) of the residual; PlotMaterial.evaluate starts eve
 state; ViewMaterial curves return P11 of the diagonal deformation whose lateral stretch solves P33 = 0.
 """
 import itertools
+from fractions import Fraction
 from copy import deepcopy
 
 import numpy as np
@@ -338,3 +339,60 @@ def umat_P(umat, call):
     return P
 
 
+
+
+@contract("C09", "material_curves_incompressible", configs=[dict(curve=c, statevars=s) for c in ("uniaxial", "planar", "biaxial") for s in (False, True)])
+def material_curves_incompressible(vk, cfg):
+    """ViewMaterialIncompressible: isochoric kinematics diag(l1, l2, l3) with l1 l2 l3 == 1 and the normal
+    force P11 - l3/l1 P33 (hydrostatic pressure eliminated through the stress-free third direction)"""
+    if not vk.sym:
+        return
+    from felupe.constitution._view import ViewMaterialIncompressible as VMI
+
+    curve = cfg["curve"]
+    vk.real(getattr(VMI, curve))
+    lam = vk.reals("lam", (2,), near=[1.3, 1.6])
+    for x in lam:
+        oracle.assume(x, ">")
+    calls, outs = [], []
+    inner = StubMaterial(vk, dim=3, hyperelastic=False)
+
+    class U:
+        x = [np.eye(3), np.zeros(1 if cfg["statevars"] else 0)]
+
+        def gradient(s, x):
+            F, z = x[0], x[-1]
+            calls.append((F, z))
+            P = inner.gradient([F, None])[0]
+            if not cfg["statevars"]:
+                outs.append(None)
+                return [P, None]
+            zn = np.empty(z.shape, dtype=object)
+            for i in np.ndindex(*z.shape):
+                zn[i] = LP.gen(ring.ghost(f"zinc{len(calls)}", [co(v) for v in np.asarray(F, dtype=object).ravel()] + [co(z[i])]))
+            outs.append(zn)
+            return [P + co(z.ravel()[0]) * ring.lift(np.eye(3)).reshape(3, 3, 1, 1), zn]
+
+    z0 = ring.symarray("z0", (1, 1, 1)) if cfg["statevars"] else None
+    vm = VMI(U(), ux=lam, ps=lam, bx=lam, statevars=z0)
+    st, force, label = getattr(vm, curve)()
+    l2, l3 = {"uniaxial": (lam ** Fraction(-1, 2), lam ** Fraction(-1, 2)), "planar": (0 * lam + 1, 1 / lam), "biaxial": (lam, 1 / (lam * lam))}[curve]
+    Fspec = np.zeros((3, 3, 1, 2), dtype=object)
+    Fspec[...] = LP()
+    Fspec[0, 0, 0], Fspec[1, 1, 0], Fspec[2, 2, 0] = lam, l2, l3
+    fin = calls[-2:] if cfg["statevars"] else calls[-1:]
+    vk.ensures_eq("F==diag(l1,l2,l3)", np.concatenate([c[0] for c in fin], axis=-1), Fspec)
+    vk.ensures_eq("isochoric: l1*l2*l3==1", lam * l2 * l3, ring.lift(np.ones(2)))
+    Ps = []
+    for F, z in fin:
+        P = inner.gradient([F, None])[0]
+        if cfg["statevars"]:
+            P = P + co(z.ravel()[0]) * ring.lift(np.eye(3)).reshape(3, 3, 1, 1)
+        Ps.append(P)
+    P11 = np.concatenate([p[0, 0].ravel() for p in Ps])
+    P33 = np.concatenate([p[2, 2].ravel() for p in Ps])
+    vk.ensures_eq("force==P11-l3/l1*P33", np.asarray(force, dtype=object), P11 - l3 / lam * P33)
+    vk.ensures_eq("returned-stretch==l1", np.asarray(st, dtype=object), lam)
+    if cfg["statevars"]:
+        vk.ensures_true("increments-are-chained", calls[-1][1] is outs[-2] and calls[-2][1] is z0, "first increment starts from the given state, the next from its output")
+    vk.canary("force==P11", np.asarray(force, dtype=object), P11 + 1)
